@@ -989,4 +989,40 @@ theorem mixLoop_diff_rev (hA : ArithOK) (hN : 1 < N) (bases s5 rev rev' : List I
 
 end diff
 
+/-! ### surplus entries of `s5` and of the revealed messages are never read -/
+
+theorem mixLoop_append (N : Int) (bases s5 rev e1 e2 : List Int) (U : List Nat) (c : Int)
+    (k i ih ir : Nat) (acc P : Int) (h : mixLoop N bases s5 rev U c k i ih ir acc = pure P) :
+    mixLoop N bases (s5 ++ e1) (rev ++ e2) U c k i ih ir acc = pure P := by
+  induction k generalizing i ih ir acc with
+  | zero => unfold mixLoop at h ⊢; exact h
+  | succ k ihk =>
+    have h := congrFun h []
+    unfold mixLoop at h ⊢
+    by_cases hc : U.contains i = true
+    · rw [if_pos hc] at h ⊢
+      bstep h with a t1 h1
+      bstep h with s t2 h2
+      bstep h with x t3 h3
+      obtain ⟨h1, -⟩ := idx_ok_iff.mp h1
+      obtain ⟨h2, -⟩ := idx_ok_iff.mp h2
+      have hlt : ih < s5.length := by
+        by_contra hlt; rw [List.getElem?_eq_none (by omega)] at h2; cases h2
+      have h2' : (s5 ++ e1)[ih]? = some s := by rw [List.getElem?_append_left hlt]; exact h2
+      rw [idx_of_getElem? h1, idx_of_getElem? h2']
+      simp only [pure_bind, pw_eq_pure_of_ok h3]
+      exact ihk _ _ _ _ (tapeFree_eq_pure (mixLoop_tapeFree ..) h)
+    · rw [if_neg hc] at h ⊢
+      bstep h with m t1 h1
+      bstep h with a t2 h2
+      bstep h with x t3 h3
+      obtain ⟨h1, -⟩ := idx_ok_iff.mp h1
+      obtain ⟨h2, -⟩ := idx_ok_iff.mp h2
+      have hlt : ir < rev.length := by
+        by_contra hlt; rw [List.getElem?_eq_none (by omega)] at h1; cases h1
+      have h1' : (rev ++ e2)[ir]? = some m := by rw [List.getElem?_append_left hlt]; exact h1
+      rw [idx_of_getElem? h1', idx_of_getElem? h2]
+      simp only [pure_bind, pw_eq_pure_of_ok h3]
+      exact ihk _ _ _ _ (tapeFree_eq_pure (mixLoop_tapeFree ..) h)
+
 end Zk.ClSpok
